@@ -14,7 +14,12 @@ Monitors on the real code (all judged through *fresh* ``WorkingTree.open`` objec
   judges every call (direct ones and the live ones made by ``resolve``): selected =
   conflicts whose path / conflict_path is in PATHS (with recurse: or lies inside one
   of them) or whose file_id / conflict_file_id is the id of one of PATHS in the tree;
-  kept + selected is the original list;
+  kept + selected is the original list; PATHS include directories written with a
+  trailing slash ('dir/'): with recursion everything strictly below is designated, the
+  directory's own conflict is left to the code (statement silent; recorded);
+* merge-hash overwrite: two ``set_merge_modified`` stores on one tree with untouched
+  files (second: empty / only unversioned / subset / disjoint / same) -> fresh open ->
+  ``merge_modified()`` is exactly the latest record after each store;
 * resolve: ``brz resolve PATHS`` / ``--all`` / auto through the command object and
   ``conflicts.resolve(tree, paths, recursive=True)``: a fresh tree lists exactly the
   conflicts the selection oracle keeps; only helper files (.BASE/.THIS/.OTHER) of the
@@ -34,7 +39,9 @@ LEVEL_TEXT = ("held on the sampled conflict lists (10 classes, <= 9 conflicts, h
 RULE = ("case = one working tree (format drawn from knit/pack-0.92/1.14/2a) with a fixed hostile namespace; several rounds of "
         "(a) random ConflictList -> set_conflicts -> reopen -> conflicts(), (b) select_conflicts with random PATHS, "
         "ignore_misses, recurse, (c) resolve via command/API, (d) set_merge_modified + tree mutation -> reopen -> "
-        "merge_modified(); evaluation = one of those executions judged; non-trivial = list has >= 2 conflicts of >= 2 "
+        "merge_modified(), (e) two consecutive set_merge_modified stores (second empty / unversioned-only / subset / "
+        "disjoint / same) each read back through a fresh tree; PATHS of (b), (c) carry a trailing slash on directories "
+        "with probability 0.3 (the command strips it, the API does not); evaluation = one of those executions judged; non-trivial = list has >= 2 conflicts of >= 2 "
         "classes (a), selection neither empty nor everything (b, c), dictionary with both surviving and filtered "
         "entries (d); distinct = distinct generated input")
 CASES = {"quick": 240, "thorough": 6400}
@@ -50,6 +57,8 @@ FLOORS = {
     "oracle_resolve_disk": 40,
     "oracle_resolve_auto": 8,
     "oracle_merge_modified": 60,
+    "oracle_merge_modified_overwrite": 100,
+    "contract_select_trailing_slash_recurse": 40,
     "oracle_stanza_direct": 200,
 }
 EXHAUSTIVE = {"quick": False, "thorough": False}
@@ -60,6 +69,9 @@ ASSUMPTIONS = [
     "trip is recorded in the histogram only: 'x\\r\\ny' reads back as 'x\\ny' (rio continuation lines, external wheel)",
     "read-back is compared as a multiset of records (order is recorded, not judged)",
     "file-id based selection is part of the documented selection rule (docstring: 'File-ids are also used for this')",
+    "a selected path 'dir/' designates, with recursion, every conflict strictly below dir; whether it also designates the "
+    "conflict at 'dir' itself (and paths equal only after '//' or '.' normalisation) is not judged - the code's answer is "
+    "recorded under select:statement-silent",
     "conflicts that own helper files are never placed below a path that is a regular file on disk "
     "(cleanup would raise ENOTDIR loudly; outside the statement)",
     "merge_modified: sha1 of the on-disk bytes computed by hashlib is the reference for 'still has that sha'",
@@ -113,19 +125,73 @@ def inside(d, p):
     return d == "" or p == d or p.startswith(d + "/")
 
 
+def _comps(x):
+    return [c for c in x.split("/") if c not in ("", ".")]
+
+
+def path_verdict(cp, pathset, recurse):
+    """True = the statement's selection rule designates cp; False = it does not; None = the statement is silent
+    (the selected path only equals / contains cp after normalising a trailing slash, '//' or '.' components)."""
+    if cp in pathset:
+        return True
+    verdict = False
+    for p in pathset:
+        d = p.rstrip("/")
+        if d and d != p:
+            # a directory written 'dir/': with recursion everything strictly below it is designated;
+            # the directory itself ('dir') is left to the code either way
+            if recurse and cp.startswith(d + "/"):
+                return True
+            if cp == d:
+                verdict = None
+        if recurse:
+            if inside(p, cp):
+                return True
+            pc = _comps(p)
+            if verdict is False and pc == _comps(cp)[:len(pc)]:
+                verdict = None
+    return verdict
+
+
 def must_select(c, pathset, ids, recurse):
+    verdict = False
     for key in ("path", "conflict_path"):
         cp = getattr(c, key, None)
         if cp is None:
             continue
-        if cp in pathset:
+        v = path_verdict(cp, pathset, recurse)
+        if v:
             return True
-        if recurse and any(inside(p, cp) for p in pathset):
-            return True
+        if v is None:
+            verdict = None
     for key in ("file_id", "conflict_file_id"):
         f = getattr(c, key, None)
         if f is not None and f in ids:
             return True
+    return verdict
+
+
+def split_expected(ctx, original, pathset, ids, recurse, actually_selected):
+    """(expected selected, expected kept) as conflict objects; where the statement is silent the code's own
+    answer (`actually_selected`: set of records) is taken."""
+    sel, kept = [], []
+    for c in original:
+        v = must_select(c, pathset, ids, recurse)
+        if v is None:
+            ctx.hist("select:statement-silent:%s" % ("selected" if rec(c) in actually_selected else "kept"))
+            v = rec(c) in actually_selected
+        (sel if v else kept).append(c)
+    return sel, kept
+
+
+def designated_through_slash(r, pathset, recurse):
+    for cp in (r[2], r[5]):
+        if cp is None or cp in pathset:
+            continue
+        for p in pathset:
+            d = p.rstrip("/")
+            if recurse and d and d != p and cp.startswith(d + "/") and not inside(p, cp):
+                return True
     return False
 
 
@@ -143,10 +209,13 @@ def judge_selection(ctx, original, tree, paths, recurse, kept, selected, where):
         if i is not None:
             ids.add(i)
     orig = [rec(c) for c in original]
-    exp_sel = [rec(c) for c in original if must_select(c, pathset, ids, recurse)]
-    exp_kept = [rec(c) for c in original if not must_select(c, pathset, ids, recurse)]
     got_sel = [rec(c) for c in selected]
     got_kept = [rec(c) for c in kept]
+    e_sel, e_kept = split_expected(ctx, original, pathset, ids, recurse, set(got_sel))
+    exp_sel = [rec(c) for c in e_sel]
+    exp_kept = [rec(c) for c in e_kept]
+    if any(p != "" and p.endswith("/") for p in pathset):
+        ctx.count("contract_select_trailing_slash" + ("_recurse" if recurse else ""))
     det = {"where": where, "paths": list(paths), "recurse": bool(recurse), "original": [jrec(r) for r in orig],
            "selected": [jrec(r) for r in got_sel], "kept": [jrec(r) for r in got_kept],
            "expected_selected": [jrec(r) for r in exp_sel]}
@@ -166,7 +235,10 @@ def judge_selection(ctx, original, tree, paths, recurse, kept, selected, where):
             r = missing[0]
             why = "by-path"
             if not (r[2] in pathset or (r[5] is not None and r[5] in pathset)):
-                why = "by-recursion" if recurse and any(inside(p, x) for p in pathset for x in (r[2], r[5]) if x is not None) else "by-file-id"
+                if designated_through_slash(r, pathset, recurse):
+                    why = "by-recursion:trailing-slash"
+                else:
+                    why = "by-recursion" if recurse and any(inside(p, x) for p in pathset for x in (r[2], r[5]) if x is not None) else "by-file-id"
             if why == "by-path" and r[2] not in pathset:
                 why = "by-conflict-path"
             ctx.fail("select:not-selected:" + why, "did not select %r designated by %r" % (jrec(r), list(paths)), det)
@@ -503,9 +575,16 @@ def gen_paths(rng, cl):
                     pool.append(v.split("/", 1)[0])
     pool += [p for p, _k in TREE] + MISSING + ["", "dir", "dir", "di", "f"]
     n = rng.choice([1, 1, 2, 2, 3, 4])
+    dirs = {p for p, k in TREE if k == "directory"}
+    for v in pool:
+        if "/" in v:
+            dirs.add(v.rsplit("/", 1)[0])
+            dirs.add(v.split("/", 1)[0])
     out = []
     for _ in range(n):
         p = rng.choice(pool)
+        if p in dirs and p and not p.endswith("/") and rng.random() < 0.3:
+            p += "/"    # a directory written the way shells complete it
         if p not in out:
             out.append(p)
     return out
@@ -597,16 +676,21 @@ def resolve_round(ctx, root, variant):
         paths = None
     if variant == "api-recursive":
         recurse = True
+    verdict_args = None
     if paths is not None:
-        pathset = set(paths)
+        # the command normalises its arguments (trailing slashes go); the API takes them as they are
+        eff = [p.rstrip("/") or p for p in paths] if variant in ("paths", "paths-abs") else list(paths)
+        if any(p.endswith("/") for p in paths):
+            ctx.hist("resolve:%s:trailing-slash-path" % variant)
+        pathset = set(eff)
         ids = set()
         with t.lock_read():
-            for p in paths:
+            for p in eff:
                 i = t.path2id(p)
                 if i is not None:
                     ids.add(i)
-        exp_kept = [rec(c) for c in original if not must_select(c, pathset, ids, recurse)]
-        exp_gone = [c for c in original if must_select(c, pathset, ids, recurse)]
+        verdict_args = (pathset, ids, recurse)
+        exp_kept = exp_gone = None
     elif variant == "all":
         exp_kept, exp_gone = [], list(original)
     else:  # auto: text conflicts without markers / vanished files are resolved, everything else stays
@@ -641,6 +725,11 @@ def resolve_round(ctx, root, variant):
         ctx.count("oracle_resolve_auto")
     ctx.hist("resolve:" + variant)
     got = [rec(c) for c in fresh(root).conflicts()]
+    if verdict_args is not None:
+        # where the statement is silent, a conflict counts as selected when it is gone afterwards
+        gone_recs = {rec(c) for c in original} - set(got)
+        exp_gone, k = split_expected(ctx, original, verdict_args[0], verdict_args[1], verdict_args[2], gone_recs)
+        exp_kept = [rec(c) for c in k]
     det = {"variant": variant, "paths": paths, "original": [jrec(rec(c)) for c in original], "after": [jrec(r) for r in got],
            "expected": [jrec(r) for r in exp_kept], "text_state": text_state}
     if sorted(got, key=skey) != sorted(exp_kept, key=skey):
@@ -649,7 +738,8 @@ def resolve_round(ctx, root, variant):
         if lost:
             ctx.fail("resolve:%s:removed-unselected" % variant, "conflict %r was removed although not selected" % (jrec(lost[0]),), det)
         elif stay and stay[0] in [rec(c) for c in original]:
-            ctx.fail("resolve:%s:selected-kept" % variant, "conflict %r was selected but is still listed" % (jrec(stay[0]),), det)
+            ctx.fail("resolve:%s:selected-kept%s" % (variant, ":trailing-slash" if verdict_args is not None and designated_through_slash(
+                stay[0], verdict_args[0], verdict_args[2]) else ""), "conflict %r was selected but is still listed" % (jrec(stay[0]),), det)
         else:
             ctx.fail("resolve:%s:list-differs" % variant, "conflicts after resolve differ from the expected rest", det)
     # disk: only helper files of removed conflicts may disappear; nothing else may change
@@ -680,6 +770,74 @@ def resolve_round(ctx, root, variant):
 
 def sha1(b):
     return hashlib.sha1(b).hexdigest().encode("ascii")
+
+
+def mm_read(ctx, root, det):
+    try:
+        return dict(fresh(root).merge_modified())
+    except Exception as e:
+        ctx.fail("merge_modified:read-raised:%s" % type(e).__name__, repr(e)[:300], det)
+        return None
+
+
+def merge_modified_overwrite(ctx, root):
+    """Two stores on the same tree without touching the files in between: the second record replaces the
+    first (an empty map - what a merge or revert that touched nothing records - clears it)."""
+    rng = ctx.rng
+    wt = fresh(root)
+    files = []
+    with wt.lock_read():
+        for p, e in wt.iter_entries_by_dir():
+            ap = os.path.join(root, p)
+            if p and e.kind == "file" and os.path.isfile(ap) and not os.path.islink(ap):
+                with open(ap, "rb") as f:
+                    files.append((p, sha1(f.read())))
+    del wt
+    if len(files) < 2:
+        ctx.hist("mm-overwrite:too-few-files")
+        return
+    rng.shuffle(files)
+    first = dict(files[:rng.randint(1, len(files))])
+    kind = rng.choice(["empty", "empty", "only-unversioned", "subset", "disjoint", "same"])
+    if kind == "empty":
+        second = {}
+    elif kind == "only-unversioned":
+        second = {p: sha1(p.encode("utf-8")) for p in rng.sample(MISSING, rng.randint(1, 2))}
+    elif kind == "subset":
+        keys = sorted(first)
+        second = {p: first[p] for p in rng.sample(keys, rng.randint(0, len(keys) - 1))}
+    elif kind == "disjoint":
+        rest = [(p, h) for p, h in files if p not in first]
+        second = dict(rest[:rng.randint(0, len(rest))])
+    else:
+        second = dict(first)
+    det = {"first": {k: v.decode() for k, v in first.items()}, "second": {k: v.decode() for k, v in second.items()}, "kind": kind}
+    ctx.hist("mm-overwrite:" + kind + (":second-empty" if not second else ""))
+    true_now = dict(files)
+    for step, written in (("first", first), ("second", second)):
+        try:
+            fresh(root).set_merge_modified(dict(written))
+        except Exception as e:
+            ctx.fail("merge_modified:write-raised:%s" % type(e).__name__, repr(e)[:300], det)
+            return
+        ctx.count("oracle_merge_modified_overwrite")
+        got = mm_read(ctx, root, det)
+        if got is None:
+            return
+        exp = {p: h for p, h in written.items() if true_now.get(p) == h}
+        if got != exp:
+            d = dict(det, step=step, got={k: v.decode() for k, v in got.items()})
+            stale = [p for p in got if p not in exp and step == "second" and first.get(p) == got[p]]
+            if stale:
+                ctx.fail("merge_modified:overwrite:stale-entry-survives" + (":empty-map" if not written else ""),
+                         "entries %r of the previous record are still reported after a later record without them" % stale, d)
+            elif [p for p in exp if p not in got]:
+                ctx.fail("merge_modified:overwrite:entry-lost", "entries of the %s record are not reported" % step, d)
+            else:
+                ctx.fail("merge_modified:overwrite:differs", "read-back differs from the %s record" % step, d)
+            return
+    ctx.note(("mm-overwrite", sorted(det["first"].items()), sorted(det["second"].items())), nontrivial=set(second) != set(first),
+             sample=dict(det, mode="merge_modified_overwrite") if rng.random() < 0.03 else None)
 
 
 def merge_modified_round(ctx, root):
@@ -805,7 +963,7 @@ def merge_modified_round(ctx, root):
 
 # ------------------------------------------------------------------ the case
 
-VARIANTS = ["paths", "paths", "paths-abs", "api-recursive", "api", "all", "auto", "auto"]
+VARIANTS = ["paths", "paths", "paths-abs", "api-recursive", "api-recursive", "api", "all", "auto", "auto"]
 
 
 def case(ctx):
@@ -847,5 +1005,9 @@ def _case(ctx):
         prev = len(cl)
     for _ in range(2 if ctx.tier == "quick" else 3):
         resolve_round(ctx, root, rng.choice(VARIANTS))
-    for _ in range(3 if ctx.tier == "quick" else 4):
+    for i in range(3 if ctx.tier == "quick" else 4):
+        if i == 1:
+            merge_modified_overwrite(ctx, root)
         merge_modified_round(ctx, root)
+    if ctx.tier != "quick":
+        merge_modified_overwrite(ctx, root)
